@@ -554,6 +554,9 @@ class ValueSet:
         if self._reversed != o._reversed:
             return False
 
+        if self.regions.keys() != o.regions.keys():
+            return False
+
         for region, si in self.regions.items():
             if region in o.regions:
                 o_si = o.regions[region]
